@@ -47,12 +47,17 @@ func c02GenValCfg() gen.ValCfg {
 
 // c02Make builds a positive case from a generated schema.
 func c02Make(cs *h.Case) (*c02Case, bool) {
-	sc := gen.GenSchema(cs.R, gen.Cfg{MaxDepth: 3, MaxFields: 6, BigIDs: true, Recursive: true, Aliases: true, Requiredness: cs.R.Chance(40)})
+	sc := gen.GenSchema(cs.R, gen.Cfg{MaxDepth: 3, MaxFields: 6, BigIDs: true, Recursive: true, Aliases: true, Requiredness: cs.R.Chance(40), Typedefs: true})
 	root := structType(sc.Root)
 	desc, _, err := ParseRoot(sc, thrift.NewDefaultOptions())
 	if err != nil {
 		cs.Viol("j2t:parse-idl", "err", err, "idl", sc.IDL())
 		return nil, false
+	}
+	if idl := sc.IDL(); strings.Contains(idl, "typedef binary ") {
+		cs.Cover("schema_with_typedef_of_binary")
+	} else if strings.Contains(idl, "typedef string binary") {
+		cs.Cover("schema_with_string_typedef_named_binary")
 	}
 	v := gen.GenVal(cs.R, root, c02GenValCfg(), 0)
 	ob := cs.R.Intn(16)
